@@ -680,7 +680,7 @@ Definition v_staking_args (a : sargs) : vres :=
 Inductive cargs :=
 | CA_BridgeCoinAmount (target_zero : bool)
 | CA_CancelSendToExternal (modname_ok : bool) (txid : bigv)
-| CA_CrossChain (receipt_empty : bool) (amount fee : bigv) (target_zero : bool)
+| CA_CrossChain (receipt_empty : bool) (amount fee : bigv) (sum_overflows : bool) (target_zero : bool)   (* sum_overflows: amount + fee needs more than 256 bits *)
 | CA_IncreaseBridgeFee (modname_ok : bool) (txid fee : bigv)
 | CA_BridgeCall (modname_ok : bool) (value : bigv) (ntokens namounts : Z) (refund_zero : bool)
 | CA_ExecuteClaim (modname_ok : bool) (event_nonce : bigv)
@@ -691,10 +691,11 @@ Definition v_crosschain_args (a : cargs) : vres :=
   | CA_CancelSendToExternal mn t =>
       CHECK (pure (negb mn)) FAIL "invalid module name" ;;
       CHECK (big_nil_or t (fun x => x <=? 0)) FAIL "invalid tx id" ;; VOk
-  | CA_CrossChain re am fe tz =>
+  | CA_CrossChain re am fe ovf tz =>
       CHECK (pure re) FAIL "empty receipt" ;;
       CHECK (big_nil_or am (fun x => x <=? 0)) FAIL "invalid amount" ;;
       CHECK (big_nil_or fe (fun x => x <? 0)) FAIL "invalid fee" ;;
+      CHECK (pure ovf) FAIL "amount plus fee overflows uint256" ;;            (* fb9127f (finding C20-9) *)
       CHECK (pure tz) FAIL "empty target" ;; VOk
   | CA_IncreaseBridgeFee mn t f =>
       CHECK (pure (negb mn)) FAIL "invalid module name" ;;
@@ -718,7 +719,7 @@ Definition cargs_from_abi (a : cargs) : bool :=
   match a with
   | CA_BridgeCoinAmount _ | CA_OracleQuery _ _ => true
   | CA_CancelSendToExternal _ t => abi_big t
-  | CA_CrossChain _ am fe _ => abi_big am && abi_big fe
+  | CA_CrossChain _ am fe _ _ => abi_big am && abi_big fe
   | CA_IncreaseBridgeFee _ t f => abi_big t && abi_big f
   | CA_BridgeCall _ v nt na _ => abi_big v && (0 <=? nt) && (0 <=? na)
   | CA_ExecuteClaim _ n => abi_big n
